@@ -41,8 +41,9 @@ ALL = [t for t in ITER_TOOLS if t != "tee"] + AGG_TOOLS
 
 
 @st.composite
-def cases(draw, name, tier):
-    case = draw(base_case(name, max_len=4 if tier == "quick" else 6, max_src=3))
+def cases(draw, name, tier, many=False):
+    case = draw(base_case(name, max_len=4 if tier == "quick" else 6, max_src=3) if not many else
+                base_case(name, max_len=3, max_src=5, min_src=3))
     if name != "iter_sentinel":
         for s in case["srcs"]:
             s["fl"] = draw(st.sampled_from(["agen", "agen", "aclass", "aplain", "aclass_noclose", "agenlike"]))
@@ -378,8 +379,8 @@ def check_pipeline(case):
     if close_errors:
         raise Violation("C04/pipeline/aclose-raises", f"stages={case['stages']} mode={case['mode']} {close_errors[0]}")
     # the tool holding the source was advanced iff the source was pulled at least once
-    advanced = src.pulls > 0
-    lends = any(name == "borrow" for name, _ in case["stages"])  # a borrowed source is never owed a close
+    advanced = src.pulls > 0 and (case["take"] is None or case["take"] > 0)  # ... and so was the outermost tool
+    lends = any(st_[0] == "borrow" for st_ in case["stages"])  # a borrowed source is never owed a close
     if case["fl"] in ASYNC_CLOSEABLE and advanced and not lends and not released:
         raise Violation("C04/pipeline/source-not-released", f"stages={case['stages']} take={case['take']} "
                         f"mode={case['mode']} fl={case['fl']}")
@@ -399,6 +400,9 @@ def shards(tier):
               thorough_mult=25)
         for name in ALL
     ]
+    # several sources of very different lengths (empty ones included): bookkeeping by position / rank
+    out += [Shard(f"many-{name}", check, strategy=cases(name, tier, many=True), n=300, nontrivial=lambda c: False,
+                  thorough_mult=25) for name in ("merge", "zip", "zip_longest", "chain", "map")]
     out.append(Shard("tee-histories", check_tee, strategy=tee_cases(tier), n=1500,
                      nontrivial=tee_nontrivial, thorough_mult=25))
     out.append(Shard("groupby-histories", check_groupby, strategy=groupby_cases(tier), n=1500,
